@@ -522,6 +522,45 @@ def cmpInt (xs ys : List Bool) (c : Bool) : Bool :=
   if xs.getLastD false != ys.getLastD false then ys.getLastD false
   else cmpNat (toNat xs) (toNat ys) c
 
+theorem signExt_spec {s : St} {inp : List Bool} {x : List Nat} (n : Nat) (hx : Bnd s x) (hne : x ≠ []) :
+    Bnd s (signExt x n) ∧ busVal s inp (signExt x n) = sextTo (busVal s inp x) n := by
+  refine ⟨hx.append (Bnd.replicate (getLastD_mem_bnd hx hne) _), ?_⟩
+  simp only [signExt, sextTo]
+  rw [busVal_append, busVal_replicate, val_getLastD x hne, busVal_length]
+
+/-- `intComparator` on operands of a common width `> 0`. -/
+theorem intComparatorCore_spec {s : St} {inp : List Bool} (hwf : WF s inp) {p1 p2 : List Nat} {cin : Nat}
+    (hp1 : Bnd s p1) (hp2 : Bnd s p2) (hc : cin < s.next) (hl : p1.length = p2.length) (hne : 0 < p1.length) :
+    Spec inp s (intComparatorCore cin p1 p2) (fun z s' => Bnd s' z ∧
+      busVal s' inp z = [cmpInt (busVal s inp p1) (busVal s inp p2) (s.val inp cin)]) := by
+  unfold intComparatorCore
+  have hne1 : p1 ≠ [] := by intro h; rw [h] at hne; simp at hne
+  have hne2 : p2 ≠ [] := by intro h; rw [h, List.length_nil] at hl; omega
+  refine Spec.bind (cmpChain_spec _ hwf cin (BndP.zip hp1 hp2) hc) ?_
+  intro cout s2 e2 hco
+  have Hsx : Holds s2 inp (p1.getLastD 0) ((busVal s inp p1).getLastD false) :=
+    Holds.mono e2 ⟨getLastD_mem_bnd hp1 hne1, val_getLastD _ hne1⟩
+  have Hsy : Holds s2 inp (p2.getLastD 0) ((busVal s inp p2).getLastD false) :=
+    Holds.mono e2 ⟨getLastD_mem_bnd hp2 hne2, val_getLastD _ hne2⟩
+  refine Spec.bind (gate_spec .xor e2.wf Hsx Hsy) ?_
+  intro cond s3 e3 hcond
+  refine Spec.bind (gate_spec .xor e3.wf (hco.mono e3) (Hsy.mono e3)) ?_
+  intro w1 s4 e4 hw1
+  refine Spec.bind (gate_spec .and e4.wf hw1 (hcond.mono e4)) ?_
+  intro w2 s5 e5 hw2
+  refine Spec.bind (gate_spec .xor e5.wf hw2 (((hco.mono e3).mono e4).mono e5)) ?_
+  intro o s6 e6 ho
+  refine Spec.pure e6.wf ⟨Bnd.cons ho.1 (Bnd.nil _), ?_⟩
+  simp only [busVal_cons, busVal_nil, ho.2, cmpFold_spec, pairVals_zip, eval_xor, eval_and]
+  rw [List.map_fst_zip (by simp; omega), List.map_snd_zip (by simp; omega)]
+  simp only [cmpInt, cmpNat]
+  generalize (busVal s inp p1).getLastD false = sx
+  generalize (busVal s inp p2).getLastD false = sy
+  generalize (decide (toNat (busVal s inp p2) < toNat (busVal s inp p1)) ||
+    decide (toNat (busVal s inp p1) = toNat (busVal s inp p2)) && s.val inp cin) = r
+  cases sx <;> cases sy <;> cases r <;> rfl
+
+/-- `intComparator` as in the code: operands ZERO padded. -/
 theorem intComparator_spec {s : St} {inp : List Bool} (hwf : WF s inp) {x y : List Nat} {cin : Nat}
     (hx : Bnd s x) (hy : Bnd s y) (hc : cin < s.next) (hne : 0 < max x.length y.length) :
     Spec inp s (intComparator cin x y) (fun z s' => Bnd s' z ∧
@@ -534,34 +573,29 @@ theorem intComparator_spec {s : St} {inp : List Bool} (hwf : WF s inp) {x y : Li
     have := congrArg List.length hv1; simp at this; omega
   have hlen2 : p.2.length = max x.length y.length := by
     have := congrArg List.length hv2; simp at this; omega
-  have hne1 : p.1 ≠ [] := by intro h; rw [h] at hlen1; simp at hlen1; omega
-  have hne2 : p.2 ≠ [] := by intro h; rw [h] at hlen2; simp at hlen2; omega
-  refine Spec.bind (cmpChain_spec _ e1.wf cin (BndP.zip hp1 hp2) (Nat.lt_of_lt_of_le hc e1.next)) ?_
-  intro cout s2 e2 hco
-  have Hsx : Holds s2 inp (p.1.getLastD 0) ((busVal s1 inp p.1).getLastD false) :=
-    Holds.mono e2 ⟨getLastD_mem_bnd hp1 hne1, val_getLastD _ hne1⟩
-  have Hsy : Holds s2 inp (p.2.getLastD 0) ((busVal s1 inp p.2).getLastD false) :=
-    Holds.mono e2 ⟨getLastD_mem_bnd hp2 hne2, val_getLastD _ hne2⟩
-  refine Spec.bind (gate_spec .xor e2.wf Hsx Hsy) ?_
-  intro cond s3 e3 hcond
-  refine Spec.bind (gate_spec .xor e3.wf (hco.mono e3) (Hsy.mono e3)) ?_
-  intro w1 s4 e4 hw1
-  refine Spec.bind (gate_spec .and e4.wf hw1 (hcond.mono e4)) ?_
-  intro w2 s5 e5 hw2
-  refine Spec.bind (gate_spec .xor e5.wf hw2 (((hco.mono e3).mono e4).mono e5)) ?_
-  intro o s6 e6 ho
-  refine Spec.pure e6.wf ⟨Bnd.cons ho.1 (Bnd.nil _), ?_⟩
-  simp only [busVal_cons, busVal_nil, ho.2, cmpFold_spec, pairVals_zip, hv1, hv2, e1.val cin hc,
-    eval_xor, eval_and]
-  rw [List.map_fst_zip (by simp; omega), List.map_snd_zip (by simp; omega)]
-  simp only [cmpInt, cmpNat]
-  generalize (padTo (busVal s inp x) (max x.length y.length)).getLastD false = sx
-  generalize (padTo (busVal s inp y) (max x.length y.length)).getLastD false = sy
-  generalize (decide (toNat (padTo (busVal s inp y) (max x.length y.length)) <
-    toNat (padTo (busVal s inp x) (max x.length y.length))) ||
-    decide (toNat (padTo (busVal s inp x) (max x.length y.length)) =
-    toNat (padTo (busVal s inp y) (max x.length y.length))) && s.val inp cin) = r
-  cases sx <;> cases sy <;> cases r <;> rfl
+  refine (intComparatorCore_spec e1.wf hp1 hp2 (Nat.lt_of_lt_of_le hc e1.next) (by omega) (by omega)).mono ?_
+  intro z s2 _ ⟨hb, hv⟩
+  exact ⟨hb, by rw [hv, hv1, hv2, e1.val cin hc]⟩
+
+/-- The PROPOSED REPAIR `intComparatorSignPad` (operands sign extended). -/
+theorem intComparatorSignPad_spec {s : St} {inp : List Bool} (hwf : WF s inp) {x y : List Nat} {cin : Nat}
+    (hx : Bnd s x) (hy : Bnd s y) (hc : cin < s.next) (hxne : 0 < x.length) (hyne : 0 < y.length) :
+    Spec inp s (intComparatorSignPad cin x y) (fun z s' => Bnd s' z ∧
+      busVal s' inp z = [cmpInt (sextTo (busVal s inp x) (max x.length y.length))
+        (sextTo (busVal s inp y) (max x.length y.length)) (s.val inp cin)]) := by
+  unfold intComparatorSignPad
+  simp only [signPad]
+  have hxn : x ≠ [] := by intro h; rw [h] at hxne; simp at hxne
+  have hyn : y ≠ [] := by intro h; rw [h] at hyne; simp at hyne
+  obtain ⟨hp1, hv1⟩ := signExt_spec (inp := inp) (max x.length y.length) hx hxn
+  obtain ⟨hp2, hv2⟩ := signExt_spec (inp := inp) (max x.length y.length) hy hyn
+  have hlen1 : (signExt x (max x.length y.length)).length = max x.length y.length := by
+    have := congrArg List.length hv1; simp at this; omega
+  have hlen2 : (signExt y (max x.length y.length)).length = max x.length y.length := by
+    have := congrArg List.length hv2; simp at this; omega
+  refine (intComparatorCore_spec hwf hp1 hp2 hc (by omega) (by omega)).mono ?_
+  intro z s2 _ ⟨hb, hv⟩
+  exact ⟨hb, by rw [hv, hv1, hv2]⟩
 
 /-- `cmpInt` decides the order of the two's complement values. -/
 theorem cmpInt_spec (xs ys : List Bool) (c : Bool) (hl : xs.length = ys.length) (hne : xs ≠ []) :
@@ -642,6 +676,8 @@ theorem ucomparator_spec {s : St} {inp : List Bool} (hwf : WF s inp) (k : CmpKin
     intro z s2 _ ⟨hb, hv⟩
     exact ⟨hb, by rw [hv, hc.2, cmpNat_true, busVal_ext e1 hx, busVal_ext e1 hy]; rfl⟩
 
+/-- `NewInt{Gt,Ge,Lt,Le}Comparator` as in the code: the comparison of the two's
+complement values of the ZERO padded operands. -/
 theorem icomparator_spec {s : St} {inp : List Bool} (hwf : WF s inp) (k : CmpKind) {x y : List Nat}
     (hx : Bnd s x) (hy : Bnd s y) (hne : 0 < max x.length y.length) :
     Spec inp s (comparator true k x y) (fun z s' => Bnd s' z ∧
@@ -683,6 +719,58 @@ theorem icomparator_spec {s : St} {inp : List Bool} (hwf : WF s inp) (k : CmpKin
     intro z s2 _ ⟨hb, hv⟩
     refine ⟨hb, ?_⟩
     rw [hv, hc.2, busVal_ext e1 hx, busVal_ext e1 hy, hcomm, cmpInt_spec _ _ _ hlxy.symm hny]
+    simp only [CmpKind.relInt, Bool.and_true, List.cons.injEq, and_true]
+    rw [Bool.eq_iff_iff]; simp only [Bool.or_eq_true, decide_eq_true_eq]; omega
+
+/-- The PROPOSED REPAIR of `NewInt{Gt,Ge,Lt,Le}Comparator` (operands sign
+extended to the common width): the comparison of the two's complement values,
+for all widths. -/
+theorem icomparatorSignPad_spec {s : St} {inp : List Bool} (hwf : WF s inp) (k : CmpKind) {x y : List Nat}
+    (hx : Bnd s x) (hy : Bnd s y) (hxne : 0 < x.length) (hyne : 0 < y.length) :
+    Spec inp s (comparatorSignPad k x y) (fun z s' => Bnd s' z ∧
+      busVal s' inp z = [k.relInt (toInt (busVal s inp x)) (toInt (busVal s inp y))]) := by
+  have hxn : busVal s inp x ≠ [] := by
+    intro h; have := congrArg List.length h; simp only [busVal_length, List.length_nil] at this; omega
+  have hyn : busVal s inp y ≠ [] := by
+    intro h; have := congrArg List.length h; simp only [busVal_length, List.length_nil] at this; omega
+  have hnx : sextTo (busVal s inp x) (max x.length y.length) ≠ [] := by
+    intro h; have := congrArg List.length h; simp only [sextTo_length, busVal_length, List.length_nil] at this; omega
+  have hny : sextTo (busVal s inp y) (max x.length y.length) ≠ [] := by
+    intro h; have := congrArg List.length h; simp only [sextTo_length, busVal_length, List.length_nil] at this; omega
+  have hlxy : (sextTo (busVal s inp x) (max x.length y.length)).length =
+      (sextTo (busVal s inp y) (max x.length y.length)).length := by simp; omega
+  have hcomm : max y.length x.length = max x.length y.length := Nat.max_comm _ _
+  have htx := toInt_sextTo (busVal s inp x) (max x.length y.length) hxn
+  have hty := toInt_sextTo (busVal s inp y) (max x.length y.length) hyn
+  cases k <;> simp only [comparatorSignPad]
+  · refine Spec.bind (zeroWire_spec hwf) ?_
+    intro c s1 e1 hc
+    refine (intComparatorSignPad_spec e1.wf (hx.mono e1) (hy.mono e1) hc.1 hxne hyne).mono ?_
+    intro z s2 _ ⟨hb, hv⟩
+    refine ⟨hb, ?_⟩
+    rw [hv, hc.2, busVal_ext e1 hx, busVal_ext e1 hy, cmpInt_spec _ _ _ hlxy hnx, htx, hty]
+    simp [CmpKind.relInt]
+  · refine Spec.bind (oneWire_spec hwf) ?_
+    intro c s1 e1 hc
+    refine (intComparatorSignPad_spec e1.wf (hx.mono e1) (hy.mono e1) hc.1 hxne hyne).mono ?_
+    intro z s2 _ ⟨hb, hv⟩
+    refine ⟨hb, ?_⟩
+    rw [hv, hc.2, busVal_ext e1 hx, busVal_ext e1 hy, cmpInt_spec _ _ _ hlxy hnx, htx, hty]
+    simp only [CmpKind.relInt, Bool.and_true, List.cons.injEq, and_true]
+    rw [Bool.eq_iff_iff]; simp only [Bool.or_eq_true, decide_eq_true_eq]; omega
+  · refine Spec.bind (zeroWire_spec hwf) ?_
+    intro c s1 e1 hc
+    refine (intComparatorSignPad_spec e1.wf (hy.mono e1) (hx.mono e1) hc.1 hyne hxne).mono ?_
+    intro z s2 _ ⟨hb, hv⟩
+    refine ⟨hb, ?_⟩
+    rw [hv, hc.2, busVal_ext e1 hx, busVal_ext e1 hy, hcomm, cmpInt_spec _ _ _ hlxy.symm hny, htx, hty]
+    simp [CmpKind.relInt]
+  · refine Spec.bind (oneWire_spec hwf) ?_
+    intro c s1 e1 hc
+    refine (intComparatorSignPad_spec e1.wf (hy.mono e1) (hx.mono e1) hc.1 hyne hxne).mono ?_
+    intro z s2 _ ⟨hb, hv⟩
+    refine ⟨hb, ?_⟩
+    rw [hv, hc.2, busVal_ext e1 hx, busVal_ext e1 hy, hcomm, cmpInt_spec _ _ _ hlxy.symm hny, htx, hty]
     simp only [CmpKind.relInt, Bool.and_true, List.cons.injEq, and_true]
     rw [Bool.eq_iff_iff]; simp only [Bool.or_eq_true, decide_eq_true_eq]; omega
 
